@@ -14,6 +14,7 @@ from bibtexparser.model import (
     String,
 )
 
+from .. import leak
 from ..canon import alias, canon, describe
 
 ID = "C16"
@@ -56,7 +57,7 @@ def bounds(tier):
 
 def shards(tier):
     maxb = 3 if tier == "quick" else 4
-    out = [("short", 0)]
+    out = [("short", 0), ("leak", 0)]
     for a in NAMES:
         for b in NAMES:
             out.append(("pre", a, b))
@@ -156,6 +157,14 @@ def run_shard(shard, tier, acc):
     maxb = 3 if tier == "quick" else 4
     if shard[0] == "short":
         run_libs([()] + [(a,) for a in NAMES], acc)
+        return
+    if shard[0] == "leak":
+        libs = [(a, b, c) for a in NAMES[:6] for b in NAMES[3:] for c in NAMES[::3]]
+        inputs = [(lambda n=n: build(n)) for n in libs]
+        for order in (ORDERS[0], ORDERS[3], ORDERS[40], ORDERS[200], ORDERS[-1]):
+            for on_top in (True, False):
+                types = tuple(TYPES[i] for i in order)
+                leak.run(lambda t=types, o=on_top: SortBlocksByTypeAndKeyMiddleware(block_type_order=t, preserve_comments_on_top=o), inputs, acc, f"SortBlocks({[TNAMES[i] for i in order]},{on_top})", case_of=lambda i: list(libs[i]))
         return
     _, a, b = shard
     libs = [(a, b)]
